@@ -1,12 +1,12 @@
 #!/usr/bin/env python3
-"""Writes /verif/MANIFEST.json from tools/manifest_entries.json (one entry per claimed property)
+"""Writes /verif/MANIFEST.json from tools/manifest.d/Cxx.json (one file per claimed property)
 and validates it against the schema when jsonschema is available."""
 import json
 import sys
 from pathlib import Path
 
 HERE = Path(__file__).resolve().parent.parent
-entries = json.loads((HERE / "tools" / "manifest_entries.json").read_text())
+entries = {p.stem: json.loads(p.read_text()) for p in sorted((HERE / "tools" / "manifest.d").glob("C*.json"))}
 props = [json.loads(l)["id"] for l in (HERE / "properties.jsonl").read_text().splitlines() if l.strip()]
 
 checks, na = [], []
